@@ -60,6 +60,8 @@ func (s *Script) Quiesce() {
 	if err := s.h.g.Quiesce(QOpts{AllowOutstanding: true}); err != nil {
 		s.res.Inconclusive = err.Error()
 		s.ok = false
+	} else {
+		s.h.ppoints = append(s.h.ppoints, s.h.g.Clock.Tick())
 	}
 }
 
